@@ -6,6 +6,8 @@ import (
 	"fmt"
 	"strings"
 
+	"github.com/runreveal/pql/parser"
+
 	"verif/harness/gen"
 	"verif/harness/mon"
 	. "verif/harness/pqlref"
@@ -199,6 +201,10 @@ var skels = []skel{
 	{"render-prop-name", "id", func(_ *E, id Ident) *Program {
 		return Query("T", &Op{K: "render", Name: Ident{Name: "pie"}, With: true, Props: []Prop{{Name: id, Val: Num("1")}}})
 	}},
+	{"render-prop-name-among-others", "id", func(_ *E, id Ident) *Program {
+		return Query("T", &Op{K: "render", Name: Ident{Name: "pie"}, With: true, Props: []Prop{
+			{Name: Ident{Name: "title"}, Val: Str("'t'", "t")}, {Name: id, Val: Num("1")}, {Name: Ident{Name: "kind"}, Val: Name("stacked")}, {Name: Ident{Name: "xtitle"}, Val: Str("'x'", "x")}}})
+	}},
 	{"render-prop-value", "id", func(_ *E, id Ident) *Program {
 		return Query("T", &Op{K: "render", Name: Ident{Name: "pie"}, With: true, Props: []Prop{{Name: Ident{Name: "k"}, Val: &E{K: "name", Parts: []Ident{id}}}}})
 	}},
@@ -370,6 +376,24 @@ func generate(w *mon.W) {
 			for _, f := range []string{"a", "t", "n", "T", "k", "x1", "_u", "count", "title", "null", "true", "stacked"} {
 				c := &Case{Skel: sk.name, Kind: "id", Fill: f, Bound: true}
 				w.Do(fmt.Sprintf("%s|bound|%s", sk.name, f), func(r *mon.R) { Check(c, r) })
+			}
+			// the names the program itself already uses, as they are and in other
+			// letter case (content that differs from a neighbour's by case only is
+			// different content)
+			{
+				seen := map[string]bool{}
+				for _, t := range Tokens(Print(sk.mk(nil, Ident{Name: placementRef, Quoted: true}), Layout{Mode: 0}).Src) {
+					if (t.Kind == parser.TokenIdentifier || t.Kind == parser.TokenQuotedIdentifier) && t.Val != placementRef && t.Val != "" {
+						for _, f := range []string{t.Val, strings.ToUpper(t.Val), strings.ToLower(t.Val), strings.ToUpper(t.Val[:1]) + t.Val[1:], t.Val[:len(t.Val)-1] + strings.ToUpper(t.Val[len(t.Val)-1:])} {
+							if seen[f] || strings.HasPrefix(sk.name, "join-qualifier") && (f == "$left" || f == "$right") {
+								continue
+							}
+							seen[f] = true
+							c := &Case{Skel: sk.name, Kind: "id", Fill: f}
+							w.Do(fmt.Sprintf("%s|%s", sk.name, f), func(r *mon.R) { Check(c, r) })
+						}
+					}
+				}
 			}
 			// names that look like the compiler's own (generated subquery names,
 			// join aliases, render columns, built-ins) followed by hostile content
